@@ -71,6 +71,12 @@ func laneInput(base []int8, mode, j int) []int8 {
 	return out
 }
 
+// runInput: lanes grouped in runs of three equal lanes counted from the LAST lane (so that the last run ends
+// at lane n-1); the lanes of a run are handed to Absorb as one and the same slice
+func runInput(base []int8, n, j int) []int8 {
+	return laneInput(base, 1, (n-1-j)/3)
+}
+
 type inst struct {
 	c     *curl.Curl
 	n     int
@@ -115,7 +121,7 @@ func compareState(where string, in *inst) error {
 
 func checkHistory(hist history) (h.Info, error) {
 	var insts []*inst
-	var absorbed, squeezed, multiLane, split, multiSqueeze, cloned, resetReuse, rejected, dstReuse bool
+	var absorbed, squeezed, multiLane, split, multiSqueeze, cloned, resetReuse, rejected, dstReuse, aliased bool
 	for step, o := range hist.Ops {
 		where := fmt.Sprintf("step %d (%s inst %d)", step, o.Kind, o.Inst)
 		if o.Kind == "new" {
@@ -146,7 +152,11 @@ func checkHistory(hist history) (h.Info, error) {
 			}
 			src := make([]trinary.Trits, in.n)
 			for j := range src {
-				src[j] = laneInput(o.Base, o.Mode, j)
+				if o.Mode == 3 {
+					src[j] = runInput(o.Base, in.n, j)
+				} else {
+					src[j] = laneInput(o.Base, o.Mode, j)
+				}
 			}
 			// issue as one or several calls
 			cuts := append(append([]int{}, o.Split...), o.Blocks)
@@ -157,6 +167,10 @@ func checkHistory(hist history) (h.Info, error) {
 				}
 				part := make([]trinary.Trits, in.n)
 				for j := range part {
+					if o.Mode == 3 && j > 0 && (in.n-1-j)/3 == (in.n-j)/3 {
+						part[j] = part[j-1] // same run: the very same slice (a caller hashing one message in several lanes)
+						continue
+					}
 					part[j] = append(trinary.Trits{}, src[j][prev*ref.Rate:cut*ref.Rate]...)
 				}
 				if err := in.c.Absorb(part, (cut-prev)*ref.Rate); err != nil {
@@ -178,6 +192,9 @@ func checkHistory(hist history) (h.Info, error) {
 				absorbed = true
 				if in.n >= 2 && o.Mode != 0 {
 					multiLane = true
+				}
+				if o.Mode == 3 && in.n >= 2 {
+					aliased = true
 				}
 				if len(o.Split) > 0 {
 					split = true
@@ -357,6 +374,8 @@ func checkHistory(hist history) (h.Info, error) {
 	}
 	info := h.Info{Class: "history/plain", NT: absorbed && squeezed && multiLane}
 	switch {
+	case aliased:
+		info.Class = "history/lanes-sharing-one-slice"
 	case dstReuse:
 		info.Class = "history/caller-supplied-dst"
 	case rejected:
@@ -414,11 +433,18 @@ func genHistory(t *rapid.T) history {
 			if h.Pick(t, "longabsorb", 60, 1) == 1 { // many blocks in one call (more than one 8019-trit transaction)
 				k = h.OneOf(t, "longblocks", 32, 33, 34, 35, 66, 67, 100)
 			}
-			o := op{Kind: "absorb", Inst: i, Blocks: k, Mode: h.Pick(t, "mode", 1, 2, 4)}
+			o := op{Kind: "absorb", Inst: i, Blocks: k, Mode: h.Pick(t, "mode", 2, 4, 8, 3)}
 			o.Base = make([]int8, k*ref.Rate)
-			fill := h.Pick(t, "fill", 4, 1, 1)
+			fill := h.Pick(t, "fill", 8, 2, 2, 3)
 			for x := range o.Base {
 				switch fill {
+				case 3: // zero blocks except for one of the first or last three trits of the block
+					o.Base[x] = 0
+					if pos := x % ref.Rate; pos == (x/ref.Rate*7+k)%3 || pos == ref.Rate-1-(x/ref.Rate+k)%3 {
+						if (x/ref.Rate+pos)%2 == 0 {
+							o.Base[x] = int8(1 - 2*((x/ref.Rate)%2))
+						}
+					}
 				case 0:
 					o.Base[x] = int8(rapid.IntRange(-1, 1).Draw(t, "trit"))
 				case 1:
@@ -433,6 +459,9 @@ func genHistory(t *rapid.T) history {
 			ops = append(ops, o)
 		case 1:
 			blocks := h.Pick(t, "sblocks", 1, 6, 2, 1)
+			if st[i].n <= 4 && h.Pick(t, "longsqueeze", 60, 1) == 1 { // hundreds of squeezed blocks on one instance
+				blocks = h.OneOf(t, "lsq", 255, 256, 257, 258, 300, 513)
+			}
 			lanes := st[i].n
 			if !rapid.Bool().Draw(t, "alllanes") {
 				lanes = rapid.IntRange(1, st[i].n).Draw(t, "lanes")
@@ -475,8 +504,71 @@ func TestHistories(t *testing.T) {
 	h.Run(t, h.Sub[history]{
 		Prop: "C06", Name: "histories-" + buildVariant, N: 1600,
 		Gen: genHistory, Check: checkHistory,
-		Require: []string{"history/clone", "history/reset-reuse", "history/rejected-call", "history/split-absorb", "history/multi-block-squeeze", "history/caller-supplied-dst"},
-		Rule:    "histories of 2..12 calls over up to 4 instances (batch sizes weighted to 1, 2, W-1, W, where W = lanes per machine word of the build target: 64, or 32 for the GOARCH=386 variant): Absorb of 0..3 blocks (equal lanes / single-trit differences / all lanes different, optionally split across calls), Squeeze of 0..3 blocks into 1..n lanes (dst: fresh, the caller's long-lived slice still holding earlier results that must stay intact, or adjacent windows of one buffer), Clone, Reset (optionally followed by use with another batch size), occasional absorbs of 32..100 blocks in one call, rejected calls (batch size 0 / W+1, length not a multiple of 243); after every step the bit-sliced state of every instance decoded lane by lane must equal n independent scalar Curl-P-81 sponges and squeezed output = the lane's own sponge; non-trivial = >= 1 absorbed block, >= 1 squeezed block and >= 2 different lanes; distinct by history",
+		Require: []string{"history/lanes-sharing-one-slice", "history/clone", "history/reset-reuse", "history/rejected-call", "history/split-absorb", "history/multi-block-squeeze", "history/caller-supplied-dst"},
+		Rule:    "histories of 2..12 calls (lanes optionally in runs of three handed over as one shared slice; zero blocks except a first or last trit; one squeeze in sixty of 255..513 blocks) over up to 4 instances (batch sizes weighted to 1, 2, W-1, W, where W = lanes per machine word of the build target: 64, or 32 for the GOARCH=386 variant): Absorb of 0..3 blocks (equal lanes / single-trit differences / all lanes different, optionally split across calls), Squeeze of 0..3 blocks into 1..n lanes (dst: fresh, the caller's long-lived slice still holding earlier results that must stay intact, or adjacent windows of one buffer), Clone, Reset (optionally followed by use with another batch size), occasional absorbs of 32..100 blocks in one call, rejected calls (batch size 0 / W+1, length not a multiple of 243); after every step the bit-sliced state of every instance decoded lane by lane must equal n independent scalar Curl-P-81 sponges and squeezed output = the lane's own sponge; non-trivial = >= 1 absorbed block, >= 1 squeezed block and >= 2 different lanes; distinct by history",
+	})
+}
+
+// ---- tens of thousands of absorbed blocks on one instance, then Reset and a fresh hash ----
+
+func TestManyBlocksThenReset(t *testing.T) {
+	type manyCase struct {
+		Blocks int `json:"blocks"`
+	}
+	h.RunEnum(t, h.Enum[manyCase]{
+		Prop: "C06", Name: "many-blocks-then-reset-" + buildVariant,
+		Rule: "one instance absorbs 65535 / 65536 / 65537 blocks (in calls of 4096 blocks), is Reset and then hashes a fresh one-block message in two lanes: the digest equals the reference hash of that message alone (a count of absorbed blocks kept in 16 bits wraps here); the three counts go to three shards, i.e. to the three build variants; all non-trivial",
+		Each: func(yield func(manyCase) bool) {
+			for _, n := range []int{65536, 65537, 65535} {
+				if !yield(manyCase{n}) {
+					return
+				}
+			}
+		},
+		Check: func(c manyCase) (h.Info, error) {
+			info := h.Info{Class: "many-blocks", NT: true}
+			cu := curl.NewCurlP81()
+			chunk := make(trinary.Trits, 4096*ref.Rate)
+			for i := range chunk {
+				chunk[i] = int8((i*7+i/243)%3) - 1
+			}
+			for left := c.Blocks; left > 0; {
+				k := 4096
+				if left < k {
+					k = left
+				}
+				if err := cu.Absorb([]trinary.Trits{chunk[:k*ref.Rate]}, k*ref.Rate); err != nil {
+					return info, err
+				}
+				left -= k
+			}
+			cu.Reset()
+			msg := make(trinary.Trits, ref.Rate)
+			for i := range msg {
+				msg[i] = int8((i*5+c.Blocks)%3) - 1
+			}
+			other := append(trinary.Trits{}, msg...)
+			other[7] = -other[7] + 0
+			if other[7] == msg[7] {
+				other[7] = 1
+			}
+			if err := cu.Absorb([]trinary.Trits{msg, other}, ref.Rate); err != nil {
+				return info, err
+			}
+			dst := make([]trinary.Trits, 2)
+			if err := cu.Squeeze(dst, ref.Rate); err != nil {
+				return info, err
+			}
+			for j, m := range []trinary.Trits{msg, other} {
+				want := ref.Hash(m)
+				for i := range want {
+					if dst[j][i] != want[i] {
+						return info, fmt.Errorf("[%s build] after %d absorbed blocks and Reset, the hash of a fresh one-block message (lane %d) differs from Curl-P-81 at trit %d: %d, reference %d", buildVariant, c.Blocks, j, i, dst[j][i], want[i])
+					}
+				}
+			}
+			return info, nil
+		},
 	})
 }
 
